@@ -4,6 +4,7 @@
   storage identities by the interpreter (including reuse of the identity of freed storage).
 -/
 import Serif.Proofs.AliasHeap
+import Serif.Proofs.AliasTracker
 
 namespace Serif.C15
 open Serif Serif.AState
@@ -203,6 +204,16 @@ theorem writable_after_partner_collected (ops : List AOp) (o o' s s' : Nat) (c :
     · simp
     · rename_i hxo'; exact honly x hx hxo'
 
+/-- **the tracker class refines "the set of registered pairs"**: drive `register` / `unregister` / `check_writable` directly,
+    in any order, with any identities (reused at will) and with objects dying at any point, the only discipline being that
+    `register` / `unregister` are passed live objects.  Then every `check_writable` raises AliasError iff two different live
+    objects are registered (and not since unregistered) under that identity — dead references lingering in the registry,
+    the paths on which the pruned list is or is not stored back and the deletion of empty entries never show. -/
+theorem tracker_refines_spec (ops : List TOp) (v : TValidRun AState.init ops) (s : Nat) :
+    let p := trun (AState.init, []) ops
+    (p.1.tstep (.check s)).2 = true ↔ SpecShared p.1 p.2 s :=
+  check_spec _ _ (trun_inv ops AState.init [] tinv_init v) s
+
 /-! #### non-vacuity: identity reuse after the double initialisation of a table (the history of defect #18) -/
 
 /-- table object 0 is created over storage 11, re-initialised over storage 12 (storage 11 is freed), then a fresh
@@ -215,5 +226,13 @@ example :
 example :
     let st := AState.init.run [.create 5 [1, 2], .create 5 [1, 2]]
     (st.step (.write 0 6 [9, 2])).2 = true ∧ ((st.step (.drop 1)).1.step (.write 0 6 [9, 2])).2 = false := by decide
+
+/-- tracker level: two live objects under identity 7 are refused; after one dies the other is accepted although its dead
+    reference still sits in the registry; a new object registered under the recycled identity is shared again -/
+example : (((trun (AState.init, []) [.new, .new, .reg 0 7, .reg 1 7]).1.tstep (.check 7)).2 = true)
+    ∧ (((trun (AState.init, []) [.new, .new, .reg 0 7, .reg 1 7, .kill 1]).1.tstep (.check 7)).2 = false)
+    ∧ ((trun (AState.init, []) [.new, .new, .reg 0 7, .reg 1 7, .kill 1]).1.reg 7 = [0, 1])
+    ∧ (((trun (AState.init, []) [.new, .new, .reg 0 7, .reg 1 7, .kill 1, .new, .reg 2 7]).1.tstep (.check 7)).2 = true) := by
+  decide
 
 end Serif.C15
